@@ -2,6 +2,7 @@ import DracoProofs.Octahedron
 import DracoProofs.OctaAngle
 import DracoProofs.OctaFloatAngle
 import DracoProofs.GeneratedFuncs
+import DracoProofs.GeneratedSqrt
 /-
   C07 (integer half) — octahedral coordinates produced by the encoder lie inside the q-bit
   square `[0, max_value_]² = [0, 2^q − 2]²` and are canonical (the unique representative of the
@@ -580,5 +581,36 @@ theorem source_octaDecode_is_model' (t : OctaT) (pred corr : Int × Int) (hwf : 
 example : Generated.PredictionSchemeNormalOctahedronCanonicalizedDecodingTransform.ComputeOriginalValue
     (Generated.ofOctaT (Octa.ofCenter 127)) (200, 13) (7, 250) = Octa.decOrig (Octa.ofCenter 127) (200, 13) (7, 250) :=
   source_octaDecode_is_model' _ _ _ (by unfold OctaT.WF Octa.ofCenter; decide) (by unfold Octa.inGrid Octa.ofCenter; decide)
+
+open Generated in
+/-- `OctahedronToolBox::IntegerVectorToQuantizedOctahedralCoords` (with its call of `CanonicalizeOctahedralCoords`) is
+    `Octa.intVecToCoords` under its documented precondition `|x| + |y| + |z| = center_value_` -/
+theorem source_intVecToCoords_is_model (t : OctaT) (x y z : Int) (hwf : t.WF)
+    (hsum : iabs x + iabs y + iabs z = t.center) :
+    OctahedronToolBox.IntegerVectorToQuantizedOctahedralCoords (ofOctaT t) x y z = Octa.intVecToCoords t (x, y, z) :=
+  IntegerVectorToQuantizedOctahedralCoords_eq_model t x y z hwf hsum
+example : Generated.OctahedronToolBox.IntegerVectorToQuantizedOctahedralCoords (Generated.ofOctaT (Octa.ofCenter 127)) (-27) 60 (-40) =
+    Octa.intVecToCoords (Octa.ofCenter 127) (-27, 60, -40) :=
+  source_intVecToCoords_is_model _ _ _ _ (by unfold OctaT.WF Octa.ofCenter; decide) (by decide)
+
+open Generated in
+/-- `OctahedronToolBox::CanonicalizeIntegerVector<int32_t>` (64-bit products, truncating division) is
+    `Octa.canonicalizeIntVec` for every `int32_t` vector without an `INT_MIN` component (`std::abs` is undefined there) -/
+theorem source_canonicalizeIntVec_is_model (t : OctaT) (x y z : Int) (hwf : t.WF)
+    (hx : -2^31 < x ∧ x < 2^31) (hy : -2^31 < y ∧ y < 2^31) (hz : -2^31 < z ∧ z < 2^31) :
+    OctahedronToolBox.CanonicalizeIntegerVector (ofOctaT t) x y z = Octa.canonicalizeIntVec t (x, y, z) :=
+  CanonicalizeIntegerVector_eq_model t x y z hwf hx hy hz
+example : Generated.OctahedronToolBox.CanonicalizeIntegerVector (Generated.ofOctaT (Octa.ofCenter 127)) (-2000000000) 5 (-7) =
+    Octa.canonicalizeIntVec (Octa.ofCenter 127) (-2000000000, 5, -7) :=
+  source_canonicalizeIntVec_is_model _ _ _ _ (by unfold OctaT.WF Octa.ofCenter; decide) (by decide) (by decide) (by decide)
+
+open Generated in
+/-- `IntSqrt` (core/math_utils.h; its `while` and `do … while` loops translated as bounded iteration `cWhile 64`) returns the
+    model's `Eb.intSqrt` = floor square root for every `uint64_t`: the iteration bound is never reached and no `uint64_t`
+    operation wraps -/
+theorem source_intSqrt_is_model (n : Nat) (hn : n < 2 ^ 64) :
+    IntSqrt (n : Int) = some ((Eb.intSqrt n : Nat) : Int) := IntSqrt_eq_model n hn
+example : Generated.IntSqrt ((17 : Nat) : Int) = some ((4 : Nat) : Int) := by
+  rw [source_intSqrt_is_model 17 (by norm_num)]; decide
 
 end Draco
